@@ -192,6 +192,7 @@ class ControlModels(CommonModels):
                 return [(path, NONE)]
             if recv.kind == 'Deferred' and name in ('addCallback', 'addErrback', 'addBoth', 'addCallbacks'):
                 self.glog_add(path, 'chained', (recv, name, args))
+                self.glog_add(path, 'chained_kw', dict(kw))
                 return [(path, recv)]
             if recv.kind == 'reason' and name == 'check':
                 # Failure.check(cls): whether the close was clean -- either answer
